@@ -87,7 +87,7 @@ func c02Walk(run *core.Run) {
 		batch   func(i int) int
 		gossip  bool
 		overlap int
-		restart int // restart after this many momentums (0 = never)
+		restart int  // restart after this many momentums (0 = never)
 		queries bool // read-only ledger and consensus queries between the deliveries
 	}
 	scheds := []sched{
